@@ -119,7 +119,7 @@ struct FSlot {
 };
 struct Client {
   int idx; u64 seed; int nfut; int rounds; int gatedPermille; int abortPermille; pthread_t th;
-  long started, joins, dtors, convs, restarts, aborts, abortedSeen, queueBusy;
+  long started, joins, dtors, convs, restarts, aborts, abortedSeen, queueBusy, idleAborts;
 };
 
 static void verifyCompleted(FSlot& s, const char* how, bool objectAlive) {
@@ -189,6 +189,7 @@ static void* clientMain(void* p) {
     s.id = id; s.outstanding = true; s.abortCalled = false;
     if (r.chance((u32)c.abortPermille, 1000)) { if (s.isInt) s.fi->abort(); else s.fv->abort(); s.abortCalled = true; ++c.aborts; }
     if (r.chance(1, 3)) { FSlot& o = slots[r.below(slots.n)]; bool z = o.zslot >= 0; if (o.outstanding) { complete(c, o, r); if (z) zeroBusy = false; } }
+    if (r.chance(1, 8)) { FSlot& o = slots[r.below(slots.n)]; if (!o.outstanding) { if (o.isInt) o.fi->abort(); else o.fv->abort(); ++c.idleAborts; } }   // abort() on an idle Future: must not carry over to the next start
   }
   for (size_t i = 0; i < slots.n; ++i) { bool z = slots[i].zslot >= 0; complete(c, slots[i], r); if (z) zeroBusy = false; }
   for (size_t i = 0; i < slots.n; ++i) { delete slots[i].fi; delete slots[i].fv; }
@@ -231,7 +232,7 @@ static void runCases() {
       if (e != 1) fail(e == 0 ? "Future/job-lost" : "Future/job-duplicated", "job %ld executed %d time(s) by the end of the run", id, e);
       g_exec[id] = g_done[id] = g_argbad[id] = 0;
     }
-    long st = 0; for (int i = 0; i < nclients; ++i) { st += cl[i].started; cnt("completions_join", cl[i].joins); cnt("completions_destructor", cl[i].dtors); cnt("completions_conversion", cl[i].convs); cnt("restarts_joined_by_start", cl[i].restarts); cnt("aborts_requested", cl[i].aborts); }
+    long st = 0; for (int i = 0; i < nclients; ++i) { st += cl[i].started; cnt("completions_join", cl[i].joins); cnt("completions_destructor", cl[i].dtors); cnt("completions_conversion", cl[i].convs); cnt("restarts_joined_by_start", cl[i].restarts); cnt("aborts_requested", cl[i].aborts); cnt("aborts_on_idle_future", cl[i].idleAborts); }
     cnt("jobs", st); cnt("ops", st); cnt("client_threads", nclients);
     u64 sig = 0; int nt = __atomic_load_n(&g_nthreadIdx, RLX); if (nt > 256) nt = 256; for (int i = 0; i < nt; ++i) sig += __atomic_exchange_n(&g_sigAcc[i], 0, RLX);
     bool fresh = true; for (int i = 0; i < nsigs; ++i) if (sigs[i] == sig) fresh = false; if (fresh && nsigs < 4096) sigs[nsigs++] = sig;
